@@ -1,6 +1,6 @@
 SPECIFICATION Spec
 CONSTANTS MinN = 1  MaxN = 3  NameIdx = {1, 3, 4, 6}  MaxKids = 3  MaxEdges = 6  MaxIso = 1  MaxExtraRoots = 1
-          RootPerm = TRUE  Topo = FALSE  Gen = TRUE
+          RootPerm = TRUE  Topo = FALSE  SkipTaken = TRUE  Gen = TRUE
 VIEW view
 INVARIANT TypeOK
 INVARIANT Acyclic
